@@ -24,7 +24,7 @@ cd /; git -C /repo worktree remove --force "$wt"
 echo "suite_with_patch: $suite | demo_clean_rc=$rc_clean demo_patch_rc=$rc_patch"
 if [[ "$suite" == *"209 passed"* && $rc_clean -eq 0 && $rc_patch -ne 0 && $rc_patch -ne -1 ]]; then
   d=/verif/seeded/$sid; mkdir -p "$d"
-  cp /tmp/confirm_patch.diff "$d/patch.diff"; cp "$src/$demo" "$d/$demo"; for f in "$src"/*.yaml "$src"/*.json; do [ -f "$f" ] && [ "$(basename $f)" != meta.json ] && cp "$f" "$d/"; done
+  cp -r "$src"/. "$d"/; rm -rf "$d"/__pycache__ "$d"/build "$d"/*.o; cp /tmp/confirm_patch.diff "$d/patch.diff"
   /venv/bin/python - "$src/meta.json" "$d/meta.json" "$suite" "$rc_clean" "$rc_patch" "$demo" <<'PY'
 import json,sys
 m=json.load(open(sys.argv[1]))
